@@ -246,6 +246,72 @@ theorem property_values_refused_unchanged (f : File) (now : Nat) (x : Arg) (e : 
           rw [this, hf]
         | none => simp
 
+/-- **`RangeDimension.ticks`**: conversion and order test come first; the link is removed only when the write that
+follows cannot be refused (a linked dimension has no ticks dataset: `link_data_array` drops it once the link
+exists — hypothesis `hinv`) -/
+theorem ticks_refused_unchanged (f : File) (hinv : f.link = true → f.ds = none) (now : Nat) (x : Arg) (e : Nix.Err)
+    (h : (runWith writeDataSteps rangeTicks { x := x, now := now, file := f }).2 = some e) :
+    (runWith writeDataSteps rangeTicks { x := x, now := now, file := f }).1.file = f := by
+  revert h
+  simp only [rangeTicks, runWith, step, List.all_nil, if_true]
+  by_cases hc : (x.elems.all fun y => y.convOk) = true
+  · simp only [hc, if_true]
+    by_cases hr : (x.rank == 0) = true
+    · simp [hr]
+    · simp only [hr, Bool.false_eq_true, if_false]
+      by_cases hd : descends (x.elems.map (·.val)) = true
+      · simp [hd]
+      · simp only [hd, Bool.false_eq_true, if_false, runWith_callWriteData]
+        cases hl : f.link with
+        | false =>
+          have hf : ({ f with link := false } : File) = f := by cases f; simp_all
+          rw [hf]
+          have key := writeData_refused_unchanged
+            { x := x, converted := false, shape := none, dt := some .double, now := now, file := f } rfl
+          cases hrun : runWith.runFlat writeDataSteps
+              { x := x, converted := false, shape := none, dt := some .double, now := now, file := f } with
+          | mk m' oe =>
+            cases oe with
+            | some e' =>
+              intro _
+              have := key e' (by rw [hrun])
+              rw [hrun] at this
+              simpa using this
+            | none => simp [runWith]
+        | true =>
+          have hds : f.ds = none := hinv hl
+          -- nothing to resize, the conversion has succeeded: `write_data` cannot refuse
+          have hok : (runWith.runFlat writeDataSteps
+              { x := x, converted := true, shape := none, dt := some .double, now := now,
+                file := { f with link := false } }).2 = none := by
+            simp [writeDataSteps, runWith.runFlat, step, guardHolds, hc, hds]
+          have hok' : (runWith.runFlat writeDataSteps
+              { x := x, converted := false, shape := none, dt := some .double, now := now,
+                file := { f with link := false } }).2 = none := by
+            simp [writeDataSteps, runWith.runFlat, step, guardHolds, hc, hds]
+          cases hrun : runWith.runFlat writeDataSteps
+              { x := x, converted := false, shape := none, dt := some .double, now := now,
+                file := { f with link := false } } with
+          | mk m' oe =>
+            rw [hrun] at hok'
+            simp only at hok'
+            subst hok'
+            simp [runWith]
+  · simp [hc]
+
+/-- the hypothesis is needed, and the link matters: non-vacuity — `ticks = [1, 2]` on a linked dimension is accepted,
+removes the link and stores the ticks -/
+theorem ticks_demo :
+    runWith writeDataSteps rangeTicks
+      { x := .seq false [{ val := 1, typeOk := true, convOk := true, h5Ok := true },
+                         { val := 2, typeOk := true, convOk := true, h5Ok := true }],
+        now := 3, file := { ds := none, stamp := 0, link := true } } =
+    ({ x := .seq false [{ val := 1, typeOk := true, convOk := true, h5Ok := true },
+                        { val := 2, typeOk := true, convOk := true, h5Ok := true }],
+       converted := true, shape := some (1, 2), dt := some .double, now := 3,
+       file := { ds := some { rank := 1, vals := [1, 2] }, stamp := 0, link := false } }, none) := by
+  decide +kernel
+
 /-! ## the order and the condition matter: two shapes `write_data` must not take -/
 
 /-- an element no conversion accepts (a str, an `object()`) -/
